@@ -302,4 +302,257 @@ theorem parseTagKeyExpr_print (s : PState) (op : Token) (key : Expr) (k : Str) (
       rfl
   | _ => simp [tagKeyOKB] at hok
 
+/-! ## SHOW MEASUREMENTS: `ON db[.rp]`, `ON *`, `ON *.*`, `WITH MEASUREMENT` -/
+
+/-- The `ON` clause of `parseShowMeasurementsStatement`. -/
+def parseOnMeas : P (Str × Bool × Str × Bool) := do
+  if ← optTok .ON then
+    let (db, wdb) ← parseIdentOrStar
+    if ← optTok .DOT then
+      let (rp, wrp) ← parseIdentOrStar
+      pure (db, wdb, rp, wrp)
+    else pure (db, wdb, [], false)
+  else pure ([], false, [], false)
+
+/-- The `WITH MEASUREMENT` clause of `parseShowMeasurementsStatement`. -/
+def parseWithMeas : P (Option Source) := do
+  if ← optTok .WITH then
+    parseTokens [.MEASUREMENT]
+    let lx ← scanIW
+    if lx.tok = .EQ ∨ lx.tok = .EQREGEX then
+      let s ← parseSourceWith none
+      pure (some s)
+    else failFound lx ["=", "=~"]
+  else pure none
+
+/-- The handler is these two clause parsers followed by the common clauses. -/
+theorem parseShowMeasurements_eq (fuel : Nat) :
+    parseShowMeasurements fuel = (do
+      let (db, wdb, rp, wrp) ← parseOnMeas
+      let source ← parseWithMeas
+      let cond ← parseCondition fuel
+      let sort ← parseOrderBy
+      let limit ← parseOptTokInt .LIMIT
+      let offset ← parseOptTokInt .OFFSET
+      pure (.showMeasurements db rp wdb wrp source cond sort limit offset)) := rfl
+
+/-- `*` or `QuoteIdent(x)`. -/
+def starText (w : Bool) (x : Str) : Str := if w then ['*'] else qi x
+
+/-- `identifier or *` on its printed form. -/
+theorem parseIdentOrStar_print (s : PState) (pre : Str) (hpre : Gap pre) (w : Bool) (x k : Str) (hex : Expressible x)
+    (hw : w = true → x = []) (hk : IdentEnd x k) (hs : s.Around (pre ++ (starText w x ++ k))) :
+    ∃ s', parseIdentOrStar.run s = .ok ((x, w), s') ∧ s'.Before k := by
+  cases w with
+  | true =>
+    obtain ⟨lx, s1, h1, t1, _, b1⟩ := scanIW_piece s pre ['*'] k .MUL [] hpre hs (scansAs_mul k)
+    refine ⟨s1, ?_, b1⟩
+    unfold parseIdentOrStar
+    rw [P.run_bind _ _ s lx s1 h1, hw rfl]
+    simp only [t1, reduceCtorEq, if_false, if_true]
+    rfl
+  | false =>
+    obtain ⟨lx, s1, h1, t1, l1, b1⟩ := scanIW_piece s pre (qi x) k .IDENT x hpre hs (scansAs_ident x k hex hk)
+    refine ⟨s1, ?_, b1⟩
+    unfold parseIdentOrStar
+    rw [P.run_bind _ _ s lx s1 h1]
+    simp only [t1, l1, if_true]
+    rfl
+
+/-- The `ON` clauses the round trip is stated for: what the handler returns (`*` leaves the name
+empty), except a database that is the empty name without wildcard followed by a retention policy
+(`ON "".rp`: finding `empty-identifier-not-printed`, the whole clause is not printed). -/
+def OnMeasOK (db rp : Str) (wdb wrp : Bool) : Prop :=
+  (wdb = true → db = []) ∧ (wrp = true → rp = []) ∧ (db = [] ∧ wdb = false → rp = [] ∧ wrp = false)
+
+instance (db rp : Str) (wdb wrp : Bool) : Decidable (OnMeasOK db rp wdb wrp) := by
+  unfold OnMeasOK; exact inferInstance
+
+/-- `.*`, `.<rp>` or nothing. -/
+def rpMeasText (rp : Str) (wrp : Bool) : Str := if wrp then ['.', '*'] else if rp ≠ [] then '.' :: qi rp else []
+
+/-- ` ON <db>|*[.<rp>|.*]` when there is a database or wildcard (the printer's test). -/
+def onMeasText (db rp : Str) (wdb wrp : Bool) : Str :=
+  if db ≠ [] ∨ wdb = true then ' ' :: (Token.ON.str ++ ' ' :: (starText wdb db ++ rpMeasText rp wrp)) else []
+
+theorem kwText_onMeas (db rp : Str) (wdb wrp : Bool) : KwText (onMeasText db rp wdb wrp) .ON := by
+  unfold onMeasText; split
+  · exact Or.inr ⟨_, rfl⟩
+  · exact Or.inl rfl
+
+/-- **The `ON` clause of SHOW MEASUREMENTS** on its printed form. -/
+theorem parseOnMeas_print (s : PState) (db rp : Str) (wdb wrp : Bool) (rest : Str) (hex1 : Expressible db)
+    (hex2 : Expressible rp) (hok : OnMeasOK db rp wdb wrp) (hk : Follow rest [.ON, .DOT])
+    (hs : RT.Stand s (onMeasText db rp wdb wrp ++ rest)) :
+    ∃ s', parseOnMeas.run s = .ok ((db, wdb, rp, wrp), s') ∧ RT.Stand s' rest := by
+  obtain ⟨hok1, hok2, hok3⟩ := hok
+  unfold onMeasText at hs
+  by_cases hp : db ≠ [] ∨ wdb = true
+  · rw [if_pos hp] at hs
+    have hs' : RT.Stand s ([' '] ++ (Token.ON.str ++ (' ' :: (starText wdb db ++ (rpMeasText rp wrp ++ rest))))) := by
+      simpa only [List.append_assoc, List.cons_append, List.nil_append] using hs
+    obtain ⟨s1, h1, b1⟩ := optTok_stand s [' '] Token.ON.str _ .ON [] Gap.blank hs'
+      (scansAs_kw .ON _ (by decide +kernel) (WordEnd.blank _))
+    have hend : IdentEnd db (rpMeasText rp wrp ++ rest) := by
+      refine .of_wordEnd ?_
+      unfold rpMeasText
+      split
+      · exact WordEnd.dot _
+      · split
+        · exact WordEnd.dot _
+        · exact hk.tokEnd.1
+    obtain ⟨s2, h2, b2⟩ := parseIdentOrStar_print s1 [' '] Gap.blank wdb db _ hex1 hok1 hend b1.around
+    unfold parseOnMeas
+    rw [P.run_bind _ _ s true s1 h1]
+    simp only [if_true]
+    rw [P.run_bind _ _ s1 (db, wdb) s2 h2]
+    dsimp only
+    unfold rpMeasText at b2
+    by_cases hw : wrp = true
+    · subst hw
+      have hrp : rp = [] := hok2 rfl
+      subst hrp
+      rw [if_pos rfl] at b2
+      obtain ⟨s3, h3, b3⟩ := optTok_piece s2 [] ['.'] ('*' :: rest) .DOT [] Gap.none b2.around
+        (scansAs_dot _ (by intro x t e; simp only [List.cons.injEq] at e; rw [← e.1]; decide))
+      obtain ⟨s4, h4, b4⟩ := parseIdentOrStar_print s3 [] Gap.none true [] rest (by decide) (fun _ => rfl)
+        (Or.inl (by decide)) b3.around
+      refine ⟨s4, ?_, b4.stand⟩
+      rw [P.run_bind _ _ s2 true s3 h3]
+      simp only [if_true]
+      rw [P.run_bind _ _ s3 (([] : Str), true) s4 h4]
+      rfl
+    · have hw' : wrp = false := by simpa using hw
+      subst hw'
+      rw [if_neg (by simp)] at b2
+      by_cases hrp : rp ≠ []
+      · rw [if_pos hrp] at b2
+        obtain ⟨s3, h3, b3⟩ := optTok_piece s2 [] ['.'] (qi rp ++ rest) .DOT [] Gap.none b2.around
+          (scansAs_dot _ (quoteIdent_head_not_digit rp rest))
+        obtain ⟨s4, h4, b4⟩ := parseIdentOrStar_print s3 [] Gap.none false rp rest hex2 (by intro h; cases h)
+          (.of_wordEnd hk.tokEnd.1) b3.around
+        refine ⟨s4, ?_, b4.stand⟩
+        rw [P.run_bind _ _ s2 true s3 h3]
+        simp only [if_true]
+        rw [P.run_bind _ _ s3 (rp, false) s4 h4]
+        rfl
+      · rw [if_neg hrp] at b2
+        have hrp' : rp = [] := by simpa using hrp
+        subst hrp'
+        obtain ⟨T, hT, hne⟩ := hk.starts (t := .DOT) (by simp)
+        obtain ⟨s3, h3, st3⟩ := optTok_absent_stand .DOT s2 rest T (by simpa using b2.stand) hT hne
+        refine ⟨s3, ?_, st3⟩
+        rw [P.run_bind _ _ s2 false s3 h3]
+        rfl
+  · rw [if_neg hp] at hs
+    have hdb : db = [] := by
+      by_cases h : db = []
+      · exact h
+      · exact absurd (Or.inl h) hp
+    have hwdb : wdb = false := by
+      cases wdb with
+      | false => rfl
+      | true => exact absurd (Or.inr rfl) hp
+    obtain ⟨hrp, hwrp⟩ := hok3 ⟨hdb, hwdb⟩
+    subst hdb hwdb hrp hwrp
+    obtain ⟨T, hT, hne⟩ := hk.starts (t := .ON) (by simp)
+    obtain ⟨s1, h1, st1⟩ := optTok_absent_stand .ON s rest T (by simpa using hs) hT hne
+    refine ⟨s1, ?_, st1⟩
+    unfold parseOnMeas
+    rw [P.run_bind _ _ s false s1 h1]
+    rfl
+
+/-- The source of `WITH MEASUREMENT`: absent, a plain measurement name, or a regex. -/
+inductive MeasSpec where
+  | none
+  | name (n : Str)
+  | regex (src : Str)
+  deriving DecidableEq
+
+def MeasSpec.source : MeasSpec → Option Source
+  | .none => Option.none
+  | .name n => some (nameSrc n)
+  | .regex src => some (.measurement { regex := some src })
+
+/-- The name is expressible; the regex source can be written as text (`RT.regexB`). -/
+def MeasSpec.okB : MeasSpec → Bool
+  | .none => true
+  | .name n => RT.exprB n
+  | .regex src => RT.regexB src
+
+/-- ` WITH MEASUREMENT = <name>` / ` WITH MEASUREMENT =~ /<regex>/` / nothing. -/
+def withMeasText : MeasSpec → Str
+  | .none => []
+  | .name n => ' ' :: (Token.WITH.str ++ ' ' :: (Token.MEASUREMENT.str ++ ' ' :: '=' :: ' ' :: qi n))
+  | .regex src => ' ' :: (Token.WITH.str ++ ' ' :: (Token.MEASUREMENT.str ++ ' ' :: '=' :: '~' :: ' ' :: '/' ::
+      (escapeSlashes src ++ ['/'])))
+
+theorem kwText_withMeas (m : MeasSpec) : KwText (withMeasText m) .WITH := by
+  cases m with
+  | none => exact Or.inl rfl
+  | name n => exact Or.inr ⟨_, rfl⟩
+  | regex src => exact Or.inr ⟨_, rfl⟩
+
+/-- **The `WITH MEASUREMENT` clause** on its printed form. -/
+theorem parseWithMeas_print (s : PState) (m : MeasSpec) (rest : Str) (hok : m.okB = true) (hk : Follow rest [.WITH])
+    (hs : RT.Stand s (withMeasText m ++ rest)) :
+    ∃ s', parseWithMeas.run s = .ok (m.source, s') ∧ RT.Stand s' rest := by
+  cases m with
+  | none =>
+    obtain ⟨T, hT, hne⟩ := hk.starts (t := .WITH) (by simp)
+    obtain ⟨s1, h1, st1⟩ := optTok_absent_stand .WITH s rest T (by simpa [withMeasText] using hs) hT hne
+    refine ⟨s1, ?_, st1⟩
+    unfold parseWithMeas
+    rw [P.run_bind _ _ s false s1 h1]
+    rfl
+  | name n =>
+    have hex : Expressible n := RT.exprB_expressible hok
+    have hs' : RT.Stand s ([' '] ++ (Token.WITH.str ++ (' ' :: (Token.MEASUREMENT.str ++ ' ' :: '=' :: ' ' ::
+        (qi n ++ rest))))) := by
+      simpa only [withMeasText, List.append_assoc, List.cons_append, List.nil_append] using hs
+    obtain ⟨s1, h1, b1⟩ := optTok_stand s [' '] Token.WITH.str _ .WITH [] Gap.blank hs'
+      (scansAs_kw .WITH _ (by decide +kernel) (WordEnd.blank _))
+    obtain ⟨s2, h2, b2⟩ := parseTokens_cons_piece s1 [' '] Token.MEASUREMENT.str _ .MEASUREMENT [] [] Gap.blank b1.around
+      (scansAs_kw .MEASUREMENT _ (by decide +kernel) (WordEnd.blank _))
+    obtain ⟨lx, s3, h3, t3, _, b3⟩ := scanIW_piece s2 [' '] ['='] (' ' :: (qi n ++ rest)) .EQ [] Gap.blank b2.around
+      (scansAs_eq _ (by intro t e; cases e))
+    obtain ⟨s4, h4, a4⟩ := parseSource_name none s3 n rest hex hk.1 b3
+    refine ⟨s4, ?_, Or.inl a4⟩
+    unfold parseWithMeas
+    rw [P.run_bind _ _ s true s1 h1]
+    simp only [if_true]
+    rw [P.runBind, h2, parseTokens_nil_run]
+    dsimp only
+    rw [P.run_bind _ _ s2 lx s3 h3]
+    simp only [t3, true_or, if_true]
+    rw [P.run_bind _ _ s3 _ s4 h4]
+    rfl
+  | regex src =>
+    have hs' : RT.Stand s ([' '] ++ (Token.WITH.str ++ (' ' :: (Token.MEASUREMENT.str ++ ' ' :: '=' :: '~' :: ' ' :: '/' ::
+        (escapeSlashes src ++ '/' :: rest))))) := by
+      simpa only [withMeasText, List.append_assoc, List.cons_append, List.nil_append] using hs
+    obtain ⟨s1, h1, b1⟩ := optTok_stand s [' '] Token.WITH.str _ .WITH [] Gap.blank hs'
+      (scansAs_kw .WITH _ (by decide +kernel) (WordEnd.blank _))
+    obtain ⟨s2, h2, b2⟩ := parseTokens_cons_piece s1 [' '] Token.MEASUREMENT.str _ .MEASUREMENT [] [] Gap.blank b1.around
+      (scansAs_kw .MEASUREMENT _ (by decide +kernel) (WordEnd.blank _))
+    obtain ⟨lx, s3, h3, t3, _, b3⟩ := scanIW_piece s2 [' '] ['=', '~'] (' ' :: '/' :: (escapeSlashes src ++ '/' :: rest))
+      .EQREGEX [] Gap.blank b2.around (scansAs_eqregex _)
+    have hch : s3.r.chars = ' ' :: '/' :: (escapeSlashes src ++ '/' :: rest) := b3.2.chars_of_cons (by decide)
+    obtain ⟨lx4, s4, h4, j4, c4, _⟩ := RT.parseRegex_text s3 src rest b3.1 hok (Or.inr hch)
+    have b4 : s4.Before rest := ⟨j4.1, Or.inl c4⟩
+    refine ⟨s4, ?_, b4.stand⟩
+    unfold parseWithMeas
+    rw [P.run_bind _ _ s true s1 h1]
+    simp only [if_true]
+    rw [P.runBind, h2, parseTokens_nil_run]
+    dsimp only
+    rw [P.run_bind _ _ s2 lx s3 h3]
+    simp only [t3, or_true, if_true]
+    have hsrc : (parseSourceWith none).run s3 = .ok (.measurement { regex := some src }, s4) := by
+      unfold parseSourceWith
+      rw [P.run_bind _ _ s3 _ s4 h4]
+      rfl
+    rw [P.run_bind _ _ s3 _ s4 hsrc]
+    rfl
+
 end InfluxQL
